@@ -1332,9 +1332,6 @@ func revertFailedContracts(tx *txn, failed []types.FileContractID) error {
 			// panic if the contract is not failed. Proper reverts should have
 			// ensured that this never happens.
 			panic(fmt.Errorf("unexpected contract state transition %q %q -> %q", contractID, state.Status, contracts.ContractStatusFailed))
-		} else if state.Status == contracts.ContractStatusFailed {
-			// skip update, most likely rescanning
-			continue
 		}
 
 		// update the contract's resolution index and status
@@ -1782,9 +1779,6 @@ func revertFailedV2Contracts(tx *txn, failed []types.FileContractID) error {
 			// panic if the contract is not failed. Proper reverts should have
 			//  ensured that this never happens.
 			panic(fmt.Errorf("unexpected contract state transition %q -> %q", state.Status, contracts.V2ContractStatusFailed))
-		} else if state.Status == contracts.V2ContractStatusFailed {
-			// skip update, most likely rescanning
-			continue
 		}
 
 		// update the contract's resolution index and status
